@@ -91,6 +91,8 @@ def _cases(draw, ctx):
         for _ in range(k):
             g = draw(garbage_line.filter(lambda s, kind=kind: _garbage_for(kind, s)))
             mult = draw(st.sampled_from([1, 1, 1, 2, 3]))
+            if draw(st.integers(0, 15)) == 0:
+                mult = draw(st.sampled_from([102, 130, 257, 520]))   # LONG runs (size thresholds)
             glines.append([g, mult])
         pos_st = st.one_of(st.just(0), st.just(len(body)), st.integers(0, len(body)))
         ins[name] = [[draw(pos_st), g, mult] for g, mult in glines]
